@@ -2989,6 +2989,10 @@ void vm_execute_halt(vm * machine, bytecode * code)
     machine->running = VM_HALT;
 }
 
+#ifdef NEVER_VERIF
+void (*never_verif_step_hook)(vm * machine, bytecode * code) = NULL;
+#endif
+
 int vm_execute(vm * machine, program * prog, object * result)
 {
     bytecode * bc = NULL;
@@ -2999,6 +3003,12 @@ int vm_execute(vm * machine, program * prog, object * result)
     {
         bc = prog->module_value->code_arr + machine->ip;
         machine->ip++;
+#ifdef NEVER_VERIF
+        if (never_verif_step_hook != NULL)
+        {
+            never_verif_step_hook(machine, bc);
+        }
+#endif
         vm_execute_op[bc->type].execute(machine, bc);
 
         if (machine->running == VM_EXCEPTION)
